@@ -129,9 +129,9 @@ Lemma A_uri_escapes mk s0 (Q : chr -> st -> Prop) s :
   keeps s0 s -> (forall c s', keeps s0 s' -> Q c s') -> wp (scan_uri_escapes bops mk) Q s.
 Proof.
   intros K HQ. cbv beta delta [scan_uri_escapes].
-  match goal with |- wp (?g 5 0%N 0%N true) _ _ =>
-    cut (forall n w cd fs s, keeps s0 s -> wp (g n w cd fs) Q s); [intros H; apply H; exact K|] end.
-  clear s K. induction n as [|n IH]; intros w cd fs s K; [exact I|].
+  match goal with |- wp (?g 5 0%N 0%N 0%N true) _ _ =>
+    cut (forall n w ln cd fs s, keeps s0 s -> wp (g n w ln cd fs) Q s); [intros H; apply H; exact K|] end.
+  clear s K. induction n as [|n IH]; intros w ln cd fs s K; [exact I|].
   cbv beta iota zeta.
   apply wp_bind. eapply A_look; [eassumption|lia|]. intros s1 K1 B1 _.
   apply wp_bind. apply (wp_peek cap cap_ge); [lia|]. intros c0.
